@@ -28,6 +28,16 @@ class MacroGen:
                 continue
             seen.add(mn)
             uniq.append(r)
+        if rng.random() < 0.3 and "amb" not in seen:
+            # two rules of one mnemonic and one size whose ranges overlap: for 0..127 both match and the instruction is an
+            # error ("multiple matches"), in a block exactly as at top level - also when the operand is a block-local label
+            # whose value only settles in a later inner pass
+            uniq.append({"pat": [("lit", "amb"), ("param", "x", ("u", 8))], "prod": G.concat([G.lit_sized(rng, 8, 0xa1), ("var", 0, ["x"])]),
+                         "size": 16, "name": "amb0"})
+            self.isa["rules"] = uniq
+            self.ambiguous_twin = "    amb {x: s8} => 0xa2 @ x"
+        else:
+            self.ambiguous_twin = None
         self.isa["rules"] = uniq
         self.base = uniq
         self.local_label_as_macro_arg = False
@@ -252,6 +262,8 @@ def gen_pair(rng):
     for i in range(rng.randint(0, 3)):
         g.gen_fn(i)
     head = G.render_isa(g.isa)
+    if g.ambiguous_twin:
+        head = head + "#ruledef\n{\n" + g.ambiguous_twin + "\n}\n"
     fn_rules, fn_rules_twin = [], []
     for k, f in enumerate(g.fns):
         if rng.random() < 0.6:
@@ -341,8 +353,13 @@ def gen_pair(rng):
             body.append("#d8 %d" % v)
             twin.append("#d8 %d" % v)
     tail = "".join("%s = %d\n" % kv for kv in consts.items())
-    src = head + macro_block + fn_text + "\n".join(body) + "\n" + tail
-    twin_src = head_twin + fn_text + "\n".join(twin) + "\n" + tail
+    bank = ""
+    if rng.random() < 0.25:
+        # an address unit smaller than the (byte-sized) instructions: every label is still aligned, but an address is
+        # no longer a byte count
+        bank = "#bankdef prog\n{\n    #bits %d\n    #addr 0x%x\n    #outp 0\n}\n" % (rng.choice([4, 4, 2, 1]), rng.choice([0, 0x10, 0x100]))
+    src = head + macro_block + fn_text + bank + "\n".join(body) + "\n" + tail
+    twin_src = head_twin + fn_text + bank + "\n".join(twin) + "\n" + tail
     return src, twin_src, {"macros": len(g.macros), "fns": len(g.fns), "uses": uses_macro,
                            # any instruction of a later block may depend on the position ($ in the text, in a
                            # substituted argument or in the base rule's production, or a block-local label)
